@@ -104,6 +104,18 @@ MUTANTS = [
     ("C20", "R20b", "yaml.py", "        except YAMLError as ye:", "        except yaml_MarkedError as ye:", "SKIP"),
     ("C20", "R20b", "plist.py", "        except (ExpatError, ValueError) as ee:", "        except ExpatError as ee:", "original defect"),
     ("C20", "R20c", "__main__.py", "                        if isinstance(to_tree, str):\n                            sys.stderr.write(to_tree)\n                            sys.stderr.write('\\n\\n')\n                            return 1", "                        if isinstance(to_tree, str):\n                            sys.stderr.write(to_tree)\n                            sys.stderr.write('\\n\\n')", "second error branch does not return"),
+    # ---- added after the round-2 seeding wave
+    ("C13", "H10", "printer.py", "        for mark in self.marks - self._state_before:\n", "        for mark in self.marks:\n", "context releases marks an enclosing context added"),
+    ("C03", "R03d", "levenshtein.py", "                    while self.edit_matrix[row][col].tighten_bounds():\n                        pass\n", "", "original defect: last cell not refined before path reconstruction"),
+    ("C05", "R03d", "levenshtein.py", "                    while self.edit_matrix[row][col].tighten_bounds():\n                        pass\n", "", "original defect: last cell not refined before path reconstruction"),
+    ("C15", "R15b", "matching.py", "        ), max_edge) + 1\n", "        ), 0) + 1\n", "sentinel no longer dominates the largest weight"),
+    ("C15", "R15c", "matching.py", "        if min_range <= min_value and max_range > max_value:\n            return dtype\n    return np.dtype(int)", "        if min_range <= min_value and max_range > max_value:\n            break\n    return dtype", "last table row returned when nothing fits"),
+    ("C09", "R09e", "yaml.py", "            singleton = documents[0]\n", "            singleton = documents[0] or None\n", "falsy single document replaced by null"),
+    ("C01", "R01b", "levenshtein.py", "                reversed(to_seq[len(self.shared_prefix):])\n", "                reversed(to_seq)\n", "suffix scan may overlap the prefix on the to side"),
+    ("C06", "R01b", "levenshtein.py", "                reversed(to_seq[len(self.shared_prefix):])\n", "                reversed(to_seq)\n", "suffix scan may overlap the prefix on the to side"),
+    ("C08", "R08d", "multiset.py", "                        to_remove_from.append((f, num_matched))\n                        break\n", "                        to_remove_from.append((f, num_matched))\n                        break\n                    elif t.key > f.key:\n                        num_matched = 0\n                        break\n", "sorted-order early exit in the key lookup"),
+    ("C06", "E5d", "json.py", "        self.parent.print(*args, with_edits=False, **kwargs)\n", "        self.parent.print(*args, **kwargs)\n", "original defect: forwarded node re-enables its edit"),
+    ("C02", "R03a", "sequences.py", "        for edit in self.edits():\n            b = edit.bounds()", "        for edit in self._sub_edits:\n            b = edit.bounds()", "tail removals/insertions not counted"),
 ]
 MUTANTS = [m for m in MUTANTS if m[5] != "SKIP"]
 
